@@ -111,6 +111,9 @@ func (parser *Parser) nextBulkMessage() (*Message, error) {
 	if num < 0 {
 		return msg, nil
 	}
+	if MaxBulkLength < num {
+		return nil, fmt.Errorf(errorTooLargeBulkStringLength, num, MaxBulkLength)
+	}
 
 	msg.bytes, err = parser.nextLengthBytes(num)
 	if err != nil {
